@@ -31,22 +31,31 @@ extern "C" bool stub_okContinue(CoreSMTSolver const *) { env_step(); g_polls++; 
 // zero-length flexible array member (which the back end can only treat as an unbounded array) - an encoding aid
 static inline Lit * clause_lit(Clause * c, int i) { return reinterpret_cast<Lit *>(reinterpret_cast<uint32_t *>(c) + 1 + i); }
 extern "C" Lit * stub_clauseIndex(Clause * c, int i) { return clause_lit(c, i); }
+extern "C" Lit stub_clauseIndexConst(Clause const * c, int i) { return *clause_lit(const_cast<Clause *>(c), i); }
 static_assert(sizeof(Clause) == 4 && sizeof(Lit) == 4, "clause layout: one header word, then the literals");
 
-static vec<Watcher> occ_lists[2 * SS_NV];
+// The watch lists: one vec<Watcher> OBJECT per literal (not an array of vecs: the back end's points-to sets do not distinguish array
+// elements, and the null data pointer written by the vec constructor would make every watcher access a possible wild access).
+// std::vector<vec<Watcher>>::operator[] (the only way OccLists reaches its lists) is replaced by the case split below - the same
+// list as occs[i] - so the std::vector header of `watches.occs` itself is never read.
+#define P_LISTS(X) X(0) X(1) X(2) X(3) X(4) X(5) X(6) X(7) X(8) X(9)
+#define P_DECL(n) static vec<Watcher> wl##n;
+P_LISTS(P_DECL)
+static_assert(2 * SS_NV <= 10, "at most 10 watch lists");
 // watcher storage: only declared here (no constructor loop runs, the IR keeps the element type), defined in stop_propagate_rt.c
 extern "C" { extern CoreSMTSolver::Watcher sp_occ_buf[2 * SS_NV][P_NC]; }
 static_assert(sizeof(Watcher) * 2 * SS_NV * P_NC <= 4096, "native replay storage in stop_propagate_rt.c too small");
 static char buf_dirty[2 * SS_NV];
-// OccLists::operator[](Lit): the same list as occs[toInt(idx)] (the std::vector is laid out over occ_lists), selected by a case
-// split instead of pointer arithmetic - an encoding aid: every list pointer stays a constant address under its case
-extern "C" vec<Watcher> * stub_watchList(void * self, Lit const * idx) {
-    int l = idx->x;
-    VASSERT(l >= 0 && l < 2 * SS_NV, "watch list index is a literal of the solver");
-    VASSERT(self == (void *)&S->watches, "the watch lists of the solver under test");
-#define WL(n) if (2 * SS_NV > n && l == n) return &occ_lists[n];
-    WL(0) WL(1) WL(2) WL(3) WL(4) WL(5) WL(6) WL(7) WL(8)
-    return &occ_lists[2 * SS_NV - 1];
+extern "C" vec<Watcher> * stub_watchList(void * self, unsigned long l) {
+    VASSERT(l < 2 * SS_NV, "watch list index is a literal of the solver");
+    VASSERT(self == (void *)&S->watches.occs, "the watch lists of the solver under test");
+#define P_CASE(n) if (2 * SS_NV > n && l == n) return &wl##n;
+    P_LISTS(P_CASE)
+    return &wl0;
+}
+static void reset_lists() {   // static buffers: nothing for the vec destructors to free at exit (native replay)
+#define P_RESET(n) wl##n.data = nullptr; wl##n.sz = 0; wl##n.cap = 0;
+    P_LISTS(P_RESET)
 }
 
 static inline uint8_t val_of(int l, const uint8_t * val) { uint8_t v = val[lvar(l)]; return v == 2 ? 2 : (uint8_t)(v ^ (l & 1)); }   // 0 true, 1 false, 2 undef
@@ -119,9 +128,8 @@ static void materialize_prop() {
         Watcher & w = sp_occ_buf[nl][cnt[nl]];
         w.cref = cref_of(k); w.blocker = toLit(g_clit[k][g_blk[k][i]]); cnt[nl]++;
     }
-    for (int l = 0; l < 2 * SS_NV; l++) prealloc(occ_lists[l], sp_occ_buf[l], P_NC, cnt[l]);
-    void ** occs = reinterpret_cast<void **>(&S->watches.occs);      // std::vector<vec<Watcher>>: begin, end, end of storage
-    occs[0] = (void *)&occ_lists[0]; occs[1] = occs[2] = (void *)(&occ_lists[0] + 2 * SS_NV);
+#define P_PRE(n) if (2 * SS_NV > n) prealloc(wl##n, sp_occ_buf[n < 2 * SS_NV ? n : 0], P_NC, cnt[n < 2 * SS_NV ? n : 0]);
+    P_LISTS(P_PRE)
     prealloc(S->watches.dirty, buf_dirty, 2 * SS_NV, 2 * SS_NV);   // nothing smudged: no detached clause waits for lazy removal
     S->watches.dirties.data = nullptr; S->watches.dirties.sz = 0; S->watches.dirties.cap = 0;
     // proof logging off: resolutionProof == nullptr (zero storage)
@@ -151,7 +159,7 @@ template<int fixed_n, int fixed_q> static void run_propagate() {
     for (int v = 0; v < SS_NV; v++) if (toInt(S->assigns[v]) != val[v]) assigns_ok = false;
     VASSERT(prefix_same, "the literals already on the trail stay where they are");
     VASSERT(assigns_ok, "assigns = the literals of the trail (distinct variables, every trail literal true)");
-    if (!assigns_ok) { for (int l = 0; l < 2 * SS_NV; l++) { occ_lists[l].data = nullptr; occ_lists[l].sz = 0; occ_lists[l].cap = 0; } return; }
+    if (!assigns_ok) { reset_lists(); return; }
     // the clauses in memory are still the DB clauses (propagate only permutes literals)
     bool db_same = true;
     for (int k = 0; k < P_NC; k++) {
@@ -187,8 +195,8 @@ template<int fixed_n, int fixed_q> static void run_propagate() {
         VASSERT(n_unit == 0, "CRef_Undef: no clause of the DB is unit under the trail with its literal unpropagated (propagation fixpoint)");
         VWITNESS("propagate-fixpoint");
         if (g_stop) { VWITNESS("propagate-fixpoint-under-stop"); }
-        if (n1 > g_n) { VWITNESS("propagate-enqueued-a-literal"); }
-        if (n1 >= g_n + 2) { VWITNESS("propagate-enqueued-a-chain"); }
+        if constexpr (fixed_n < SS_NV) { if (n1 > g_n) { VWITNESS("propagate-enqueued-a-literal"); } }
+        if constexpr (fixed_n < 0 || SS_NV - fixed_n >= 2) { if (n1 >= g_n + 2) { VWITNESS("propagate-enqueued-a-chain"); } }
         if (g_q < g_n && n1 == g_n) { VWITNESS("propagate-queue-emptied-nothing-implied"); }
     } else {
         bool is_db = false, falsified = false;
@@ -200,16 +208,17 @@ template<int fixed_n, int fixed_q> static void run_propagate() {
         VASSERT(S->qhead == n1, "conflict: the propagation queue is emptied");
         VWITNESS("propagate-conflict");
         if (g_stop) { VWITNESS("propagate-conflict-under-stop"); }
-        if (n1 > g_n) { VWITNESS("propagate-conflict-after-enqueue"); }
+        if constexpr (fixed_n < SS_NV) { if (n1 > g_n) { VWITNESS("propagate-conflict-after-enqueue"); } }
     }
     VWITNESS("propagate-returns");
-    for (int l = 0; l < 2 * SS_NV; l++) { occ_lists[l].data = nullptr; occ_lists[l].sz = 0; occ_lists[l].cap = 0; }   // static buffers: nothing for the destructors to free
+    reset_lists();   // static buffers: nothing for the destructors to free
 }
 
 extern "C" void h_propagate() { run_propagate<-1, -1>(); }          // trail size and queue head symbolic
 extern "C" void h_propagate_n1q0() { run_propagate<1, 0>(); }
 extern "C" void h_propagate_n2q1() { run_propagate<2, 1>(); }
 extern "C" void h_propagate_n2q0() { run_propagate<2, 0>(); }
+extern "C" void h_propagate_n3q1() { run_propagate<3, 1>(); }
 
 #ifdef P_DEBUG_ENTRIES
 extern "C" void h_dbg_state() { build(1, 0); materialize_prop(); VWITNESS("state"); }
